@@ -345,7 +345,7 @@ class Node:
                             f"Node.data already exists in parent: {s}"
                         )
 
-        if new_data_id:
+        if new_data_id is not None:
             # data_id (and possibly data) changes: we have to update the map
             if has_clones:
                 if with_clones:
@@ -358,7 +358,7 @@ class Node:
                         node_map[new_data_id] = prev_clones
                     for n in prev_clones:
                         n._data_id = new_data_id
-                        if new_data:
+                        if new_data is not None:
                             n._data = new_data
                 else:
                     # Move this one node to another slot in the map
@@ -370,7 +370,7 @@ class Node:
                     except KeyError:  # now a singleton with a new data_id
                         node_map[new_data_id] = [self]
                     self._data_id = new_data_id
-                    if new_data:
+                    if new_data is not None:
                         self._data = new_data
             else:
                 # data_id (and possibly data) changed for a *single* node
@@ -380,9 +380,9 @@ class Node:
                 except KeyError:  # still a singleton, just a new data_id
                     node_map[new_data_id] = [self]
                 self._data_id = new_data_id
-                if new_data:
+                if new_data is not None:
                     self._data = new_data
-        elif new_data:
+        elif new_data is not None:
             # `data` changed, but `data_id` remains the same:
             # simply replace the reference
             if with_clones:
